@@ -99,6 +99,17 @@ public:
     return result;
   }
 
+  // C02.R10: the short-circuit skips every child after the first failure
+  bool Shutdown(std::chrono::microseconds timeout) noexcept
+  {
+    bool result = true;
+    for (auto &p : processors_)
+    {
+      result = result && p->Shutdown(timeout);
+    }
+    return result;
+  }
+
 private:
   std::vector<std::unique_ptr<SpanProcessor>> processors_;
 };
